@@ -267,8 +267,22 @@ def _coverages(
     test_case: tc.TestCase,
 ) -> list[float]:
     suite = tsc.TestSuiteChromosome()
-    suite.add_test_case_chromosome(tcc.TestCaseChromosome(test_case=test_case))
-    return [ff_.compute_coverage(suite) for ff_ in fitness_functions]
+    chromosome = tcc.TestCaseChromosome(test_case=test_case)
+    suite.add_test_case_chromosome(chromosome)
+    values = [ff_.compute_coverage(suite) for ff_ in fitness_functions]
+    # Equal coverage *values* do not imply equal covered goals: removing a statement may
+    # swap one covered branch for another one (same ratio), and the branch that is lost
+    # may be covered by no other test of the suite.  Append one 0/1 indicator per goal so
+    # that the element-wise comparison of the callers only accepts an unchanged goal set.
+    result = chromosome.get_last_execution_result()
+    if result is not None and len(fitness_functions) > 0:
+        trace = result.execution_trace
+        properties = next(iter(fitness_functions))._executor.subject_properties  # noqa: SLF001
+        values += [float(c in trace.executed_code_objects) for c in properties.existing_code_objects]
+        values += [float(trace.true_distances.get(p) == 0.0) for p in properties.existing_predicates]
+        values += [float(trace.false_distances.get(p) == 0.0) for p in properties.existing_predicates]
+        values += [float(line in trace.covered_line_ids) for line in properties.existing_lines]
+    return values
 
 
 class ForwardIterativeMinimizationVisitor(IterativeMinimizationVisitor):
